@@ -69,7 +69,7 @@ func NondetSites(p *load.Program) (sites []string, calls int) {
 func C08(e *Env) {
 	r := e.R
 	e.analysedBase()
-	r.Rule("R08.1", "every range over a map in module code has an order-insensitive body (map store keyed by the range key, integer accumulation, delete, or collecting the key into a slice that is totally sorted on that key before any other use); anything else lets hash-map iteration order reach the output or the diagnostics", 4)
+	r.Rule("R08.1", "every range over a map in module code has an order-insensitive body (map store keyed by the range key, integer accumulation, delete, or collecting the key into a slice that is totally sorted on that key before any other use); anything else lets hash-map iteration order reach the output or the diagnostics", 1)
 	r.Rule("R08.1-control", "positive control: the lint must report the order-sensitive map range of fixtures/ctl", 1)
 	r.Rule("R08.2", "no non-test function of the module reads the clock, randomness, the environment, the working directory, process/host facts or map order through reflection, starts a goroutine or selects", 1)
 	r.Rule("R08.3", "every YAML mapping position of input.Input decodes into a Go map or a struct (no yaml.Node / MapSlice / ordered pair list anywhere in the input types, custom unmarshalers decode into interface{}, []interface{} or string), so key order inside a mapping is erased by the decoder's target types", 5)
